@@ -105,6 +105,45 @@ def _is_bytes_test(txt: str) -> bool:
     return txt.startswith('isinstance(') and txt.endswith(', bytes)')
 
 
+def _type_guards(q: Any, node: Any) -> list[tuple[str, str]]:
+    """The guards of `node` that fix the string type: (resolved test, polarity).  A guard that is a local holding the result of the
+    type test (`is_bytes = isinstance(x, bytes)`; `if is_bytes:`) counts as the test itself; `not` flips the polarity."""
+    out = []
+    for t, p in q.guards(node):
+        if p not in ('T', 'F'):
+            continue
+        try:
+            e = ast.parse(t, mode='eval').body
+        except SyntaxError:
+            continue
+        while isinstance(e, ast.UnaryOp) and isinstance(e.op, ast.Not):
+            e, p = e.operand, ('F' if p == 'T' else 'T')
+        if isinstance(e, ast.Name):
+            e = inline_locals(q.fi.node, e)
+            while isinstance(e, ast.UnaryOp) and isinstance(e.op, ast.Not):
+                e, p = e.operand, ('F' if p == 'T' else 'T')
+        r = norm_src(e)
+        if _is_bytes_test(r):
+            out.append((r, p))
+    return out
+
+
+def _index_ifexp(fn: ast.AST, idx: ast.AST) -> bool | None:
+    """`1 if <bytes test> else 0` (or with util.BYTES/util.UNICODE, or negated and swapped): True if the index follows the type."""
+    if not isinstance(idx, ast.IfExp):
+        return None
+    t = inline_locals(fn, idx.test)
+    neg = False
+    while isinstance(t, ast.UnaryOp) and isinstance(t.op, ast.Not):
+        t, neg = t.operand, not neg
+    if isinstance(t, ast.Name):
+        t = inline_locals(fn, t)
+    b, o = norm_src(idx.body), norm_src(idx.orelse)
+    if neg:
+        b, o = o, b
+    return _is_bytes_test(norm_src(t)) and b in ('util.BYTES', '1') and o in ('util.UNICODE', '0')
+
+
 def rule_twin_indexing(ctx: Ctx, rule: str) -> None:
     ctx.text(rule, 'a twin tuple is subscripted only by util.BYTES/util.UNICODE/0/1 in a branch that fixes the type by '
                    'isinstance(x, bytes), or by a variable all of whose definitions are `util.BYTES` under such a test and '
@@ -149,8 +188,7 @@ def rule_twin_indexing(ctx: Ctx, rule: str) -> None:
                 site = repo.loc(m.name, sub)
                 witness = "glob.escape(b'a*') must use the bytes regex; a str index raises TypeError or silently mismatches"
                 if isinstance(k, int):
-                    g = q.guards(sub)
-                    tests = [(t, p) for t, p in g if _is_bytes_test(t)]
+                    tests = _type_guards(q, sub)
                     ok = any(p == ('T' if k else 'F') for _t, p in tests)
                     ctx.ob(rule, key, ok, site, f'index {k} under isinstance(…, bytes) = {bool(k)}',
                            f'guards {sorted(tests)}', witness=witness)
@@ -161,6 +199,9 @@ def rule_twin_indexing(ctx: Ctx, rule: str) -> None:
 
 
 def _var_index_ok(repo: Any, fi: Any, q: Any, idx: ast.AST) -> tuple[bool, str]:
+    r = _index_ifexp(fi.node, idx)
+    if r is not None:
+        return r, norm_src(idx)
     if isinstance(idx, ast.Name):
         defs = [s for s in walk_no_nested(fi.node) if isinstance(s, ast.Assign) and
                 any(isinstance(t, ast.Name) and t.id == idx.id for t in s.targets)]
@@ -181,19 +222,15 @@ def _defs_ok(q: Any, defs: list, name: str) -> tuple[bool, str]:
     for d in defs:
         v = d.value
         if isinstance(v, ast.IfExp):
-            t = norm_src(inline_locals(q.fi.node, v.test))
-            b, o = norm_src(v.body), norm_src(v.orelse)
-            if _is_bytes_test(t) and b in ('util.BYTES', '1') and o in ('util.UNICODE', '0'):
-                continue
-            if t.startswith('not ') and _is_bytes_test(t[4:]) and o in ('util.BYTES', '1') and b in ('util.UNICODE', '0'):
+            if _index_ifexp(q.fi.node, v):
                 continue
             return False, f'{norm_src(d)}'
         s = norm_src(v)
         if s in ('util.BYTES', '1'):
-            if not any(_is_bytes_test(t) and p == 'T' for t, p in q.guards(d)):
+            if not any(p == 'T' for _t, p in _type_guards(q, d)):
                 return False, f'`{norm_src(d)}` not under isinstance(…, bytes)'
         elif s in ('util.UNICODE', '0'):
-            if not any(_is_bytes_test(t) and p == 'F' for t, p in q.guards(d)):
+            if not any(p == 'F' for _t, p in _type_guards(q, d)):
                 return False, f'`{norm_src(d)}` not under the str branch'
         else:
             return False, f'{norm_src(d)}'
